@@ -115,23 +115,33 @@ def planOk (E : Env K) (S : Src) : Bool :=
 
 /-! ### hypotheses -/
 
-def timeOf (S : Src) (r : Rid) : Time :=
+/-- what `BuildInfoPlugin` records for a resource: `recorded mtime`, 0 for one that is not there -/
+def stampOf (S : Src) (r : Rid) : Stamp :=
   match S r with
-  | some p => p.2
+  | some p => recorded p.2
   | none => 0
 
-/-- the property's "edits change the modification time": a file seen with the same mtime has the same content -/
+/-- the property's "edits change the modification time", as far as the deployer can see it: a file seen twice with
+    the same *recorded* time has the same content.  With 64-bit timestamps this is the plain "same mtime ⇒ same
+    content" (`C12.recorded_of_64`); with the `(int)` cast two mtimes a multiple of 2³² s ≈ 136 years apart are the same
+    recorded time, and such a pair is outside this hypothesis (`C12.old_int_cast_counterexample`). -/
 def Coherent (S₀ S : Src) : Prop :=
-  ∀ r c c' t, S₀ r = some (c, t) → S r = some (c', t) → c = c'
+  ∀ r c c' t t', S₀ r = some (c, t) → S r = some (c', t') → recorded t = recorded t' → c = c'
 
-/-- no source file carries mtime 0 (the value the build info uses for "absent") -/
-def PosTimes (S : Src) : Prop := ∀ r c t, S r = some (c, t) → t ≠ 0
+/-- no source file is recorded with time 0 (the value the build info uses for "absent"): no mtime 0 — and, with the
+    `(int)` cast, no mtime a multiple of 2³² s from the epoch -/
+def PosTimes (S : Src) : Prop := ∀ r c t, S r = some (c, t) → recorded t ≠ 0
 
-/-- assumptions about the config compiler (C14's subject): the timestamps it records are the mtimes of what
-    it read, and its output depends on nothing but the resources it records -/
+/-- what the config compiler gets to see of a resource: its content, and its mtime only as the value it records -/
+def seen (S : Src) (r : Rid) : Option (Content × Stamp) :=
+  (S r).map fun ct => (ct.1, recorded ct.2)
+
+/-- assumptions about the config compiler (C14's subject): the timestamps it records are `recorded mtime` of what
+    it read, and its output depends on nothing but the resources it records (their content and recorded time) -/
 structure CompilerOK (E : Env K) : Prop where
-  faithful : ∀ id S a, E.compile id S = some a → ∀ p ∈ a.stamps, p.2 = timeOf S p.1
-  local' : ∀ id S S' a, E.compile id S = some a → (∀ p ∈ a.stamps, S' p.1 = S p.1) → E.compile id S' = some a
+  faithful : ∀ id S a, E.compile id S = some a → ∀ p ∈ a.stamps, p.2 = stampOf S p.1
+  local' : ∀ id S S' a, E.compile id S = some a → (∀ p ∈ a.stamps, seen S' p.1 = seen S p.1) →
+    E.compile id S' = some a
 
 /-- "checksum injective on the contents at hand" -/
 structure CkOK (E : Env K) : Prop where
@@ -139,12 +149,12 @@ structure CkOK (E : Env K) : Prop where
   ne_zero : ∀ s l, l ≠ [] → E.ck s l ≠ E.zero
   fck_inj : ∀ a b, E.fck a = E.fck b → a = b
 
-/-- the same, over a whole history: `cat r t` is *the* content file `r` had whenever its mtime was `t` -/
-def Stamped (cat : Rid → Time → Content) (S : Src) : Prop :=
-  ∀ r c t, S r = some (c, t) → c = cat r t
+/-- the same, over a whole history: `cat r t` is *the* content file `r` had whenever its mtime was recorded as `t` -/
+def Stamped (cat : Rid → Stamp → Content) (S : Src) : Prop :=
+  ∀ r c t, S r = some (c, t) → c = cat r (recorded t)
 
 /-- a compiled config is what the compiler made of *some* earlier state of the sources of this history -/
-def CfgOK (E : Env K) (cat : Rid → Time → Content) (id : CfgId) (a : CfgArt) : Prop :=
+def CfgOK (E : Env K) (cat : Rid → Stamp → Content) (id : CfgId) (a : CfgArt) : Prop :=
   ∃ S₀, E.compile id S₀ = some a ∧ Stamped cat S₀ ∧ PosTimes S₀
 
 def TableOK (E : Env K) (t : TableArt K) : Prop :=
@@ -161,7 +171,7 @@ def ReverseOK (E : Env K) (r : ReverseArt K) : Prop :=
   r.files ≠ [] ∧ r.ck = E.ck E.zero r.files
 
 /-- every artefact that loads records the fingerprints of what it was really built from -/
-structure Consistent (E : Env K) (cat : Rid → Time → Content) (A : Arts K) : Prop where
+structure Consistent (E : Env K) (cat : Rid → Stamp → Content) (A : Arts K) : Prop where
   cfg : ∀ id a, A.cfg id = some a → CfgOK E cat id a
   table : ∀ n t, A.table n = some t → TableOK E t
   prism : ∀ n q, A.prism n = some q → PrismOK E q
